@@ -326,10 +326,15 @@ def render_node(n, scopes, env, pbstack):
         new_pb = pbstack
         if n.get("block") is not None and env.partials.get(name) is not None:
             new_pb = ((n["block"], scopes),) + tuple(pbstack)
+        elif n.get("block") is not None:
+            # the default body of a missing partial: what @partial-block denotes INSIDE it is not stated by the property
+            new_pb = (None,) + tuple(pbstack)
         return render(body, [Scope(base, "partial")], env, new_pb)
     if t == "pblock":
         if not pbstack:
             raise SpecError(["PartialNotFound"])
+        if pbstack[0] is None:
+            raise Undefined("@partial-block inside a fallback body")
         (body, def_scopes) = pbstack[0]
         # the block body is rendered like a partial on the context current where it is used
         return render(body, [Scope(scopes[0].ctx, "partial")], env, pbstack[1:])
